@@ -414,7 +414,14 @@ def r4_append(prog, res, fn_name="InstMgr::Append", selftest=False):
              not any(cfg.dominates(cfg.locate(m[0]), cfg.locate(x)) for m in adds)]
     for r in rets0:
         conds = [a for a in f.ancestors(r) if a["k"] == "If"]
-        ok = any(re.search(r"== se\b|\bse ==", expr_str(a["ch"][0])) for a in conds)
+        p0 = f.params[0]["d"] if f.params else None
+
+        def cmp_with_param(c):
+            for x in walk(c):
+                if x["k"] == "Binary" and x.get("op") == "==" and any(strip(y) is not None and strip(y)["k"] == "Ref" and strip(y).get("d") == p0 for y in x["ch"]):
+                    return True
+            return False
+        ok = any(cmp_with_param(a["ch"][0]) for a in conds)
         res.add("R4.same_instance_twice", "R4|%s|%s|early-return" % (rel, fn_name), f.where(r), ok,
                 "the only early return is for the very instance that already carries the id" if ok else
                 "Append can return without inserting under a condition other than 'same instance already present'")
@@ -737,8 +744,15 @@ def r8_lookups(prog, res):
                 ok_r = len(rets) == 1
                 if ok_r:
                     g = [a for a in f.ancestors(rets[0]) if a["k"] == "If" and any(y is a for y in walk(body))]
-                    ok_r = len(g) == 1 and re.sub(r"\s", "", expr_str(g[0]["ch"][0])).startswith("!strcmp(se.EntityName(") and \
-                        strip(rets[0]["ch"][0]).get("n") == "se"
+                    rv = strip(rets[0]["ch"][0])
+                    gc = strip(g[0]["ch"][0]) if len(g) == 1 else None
+                    ok_r = False
+                    if gc is not None and gc["k"] == "Unary" and gc.get("op") == "!" and rv is not None and rv["k"] == "Ref":
+                        sc = strip(gc["ch"][0])
+                        if sc is not None and sc["k"] == "Call" and (sc.get("fn") or "").split("::")[-1] in ("strcmp", "__builtin_strcmp"):
+                            a0 = strip(sc["ch"][0])
+                            ok_r = a0 is not None and a0["k"] == "Call" and (a0.get("fn") or "").endswith("::EntityName") and \
+                                strip(a0["ch"][0]) is not None and strip(a0["ch"][0]).get("d") == rv.get("d")
                     nodes = [x for x in walk(body) if x["k"] == "Call" and (x.get("fn") or "").endswith("GetMgrNode")]
                     ok_r = ok_r and len(nodes) == 1 and strip(nodes[0]["ch"][-1]).get("d") == j
                 ok = ok_i and ok_c and ok_s and ok_r
